@@ -85,6 +85,7 @@ type SConn struct {
 	MaxConc   int64 // our SETTINGS_MAX_CONCURRENT_STREAMS as acknowledged (-1 unlimited)
 	pendingMC []int64
 	open      map[uint32]bool
+	answered  map[uint32]bool
 	MaxOpen   int
 	ConcViol  string
 	Acks      int
@@ -241,6 +242,11 @@ func (c *SConn) SendSettings(kv [][2]uint32) {
 			}
 		case 5:
 			mf = int64(s[1])
+			if mf > c.MaxFrame {
+				// we are ready for larger frames from the moment we say so;
+				// a smaller limit only binds the client once it has acknowledged it
+				c.MaxFrame = mf
+			}
 		case 3:
 			mc = int64(s[1])
 		case 1:
@@ -384,6 +390,11 @@ func (c *SConn) readLoop() {
 				if len(c.pendingMF) > 0 {
 					if c.pendingMF[0] >= 0 {
 						c.MaxFrame = c.pendingMF[0]
+						for _, later := range c.pendingMF[1:] {
+							if later > c.MaxFrame {
+								c.MaxFrame = later
+							}
+						}
 					}
 					if c.pendingMC[0] > -2 {
 						c.MaxConc = c.pendingMC[0]
@@ -416,6 +427,17 @@ func (c *SConn) readLoop() {
 			c.add(peer.Event{Kind: "unknown", Stream: fh.StreamID, Code: uint32(fh.Type)})
 		}
 	}
+}
+
+// Answered / MarkAnswered let a harness remember which streams it has answered.
+func (c *SConn) Answered(id uint32) bool { c.mu.Lock(); defer c.mu.Unlock(); return c.answered[id] }
+func (c *SConn) MarkAnswered(id uint32) {
+	c.mu.Lock()
+	if c.answered == nil {
+		c.answered = map[uint32]bool{}
+	}
+	c.answered[id] = true
+	c.mu.Unlock()
 }
 
 // StreamDone tells the concurrency ledger that we finished a stream (sent END_STREAM or RST).
